@@ -284,6 +284,31 @@ def gen_link_repertoire(rng, kinds, props, required, qparams, id_type, opts) -> 
             # "same listing again": every declared query parameter is carried over from the source request
             links.append({"from": "list", "to": "list", "key": "200", "by": "operationId",
                           "params": {rng.choice(["query.", ""]) + n: f"$request.query.{n}" for n in pq}})
+    # literal (non-expression) values in link bodies, by content hash: whole floats next to booleans (1.0 / true, 0.0 / false are
+    # equal for Python, different for JSON), plain integers and strings
+    ptypes = {p[0]: p[1].get("type") for p in props}
+    for link in links:
+        body = link.get("requestBody")
+        if not isinstance(body, dict):
+            continue
+        for pn in sorted(body):
+            h = content_hash("lit", link["from"], link["to"], pn, json.dumps(body[pn], default=str))
+            if h % 3 != 0:
+                continue
+            t = ptypes.get(pn)
+            if t == "integer":
+                body[pn] = [1.0, 0.0, 1, 3][(h // 3) % 4]
+            elif t == "boolean":
+                body[pn] = [True, False][(h // 3) % 2]
+            elif t == "string":
+                body[pn] = "lit"
+        # a boolean next to a whole float of the same truth value in one body (true / 1.0, false / 0.0)
+        bools = [pn for pn in sorted(body) if ptypes.get(pn) == "boolean"]
+        ints = [pn for pn in sorted(body) if ptypes.get(pn) == "integer"]
+        if bools and ints and content_hash("pair", link["from"], link["to"], json.dumps(sorted(body))) % 2 == 0:
+            truth = content_hash("truth", link["from"], link["to"]) % 2 == 0
+            body[bools[0]] = truth
+            body[ints[0]] = 1.0 if truth else 0.0
     bad = opts.get("malformed_link")
     if bad and links:
         victim = rng.choice(links)
